@@ -79,6 +79,7 @@ class Ctx(object):
         self.nchoose = 0
         self.inputs = []          # (name, z3 const) in creation order -- for model extraction
         self.notes = {}           # per-path scratch for harness
+        self.soft = []
         self.last_model = None    # a model of the current path condition (saves feasibility queries)
 
     # ---- per path -------------------------------------------------------------------------
@@ -89,6 +90,7 @@ class Ctx(object):
         self.nchoose = 0
         self.inputs = []
         self.notes = {}
+        self.soft = []
         self.last_model = None
         self.solver.push()
 
@@ -250,14 +252,32 @@ class Ctx(object):
             raise EngineLimit('symbolic obligation in concrete replay')
         r = self._check(z3.Not(cond))
         if r == z3.sat:
-            raise Violation(what, self.model(), sig)
+            if sig is not None and _sig_known(sig):
+                # a recorded finding: report it, then go on under the assumption that it does not occur, so that the
+                # obligations after it on this path are still decided
+                self.soft.append((what, self.model_of_negation(cond), self.notes.get('scenario'), sig))
+                self.assume(cond)
+                return
+            raise Violation(what, self.model_of_negation(cond), sig)
 
-    def fail(self, what, sig=None):
-        """Unconditional violation on this (feasible) path."""
+    def model_of_negation(self, cond):
+        self.solver.push()
+        try:
+            self.solver.add(z3.Not(cond))
+            return self.model()
+        finally:
+            self.solver.pop()
+
+    def fail(self, what, sig=None, soft=False):
+        """Unconditional violation on this (feasible) path.  soft=True: if the signature is a recorded finding, report it
+        and return, so that independent checks after it on the same path are still evaluated."""
         self.prove_queries += 1
         if self.concrete is not None:
             raise Violation(what, dict(self.concrete), sig)
         if self._check() == z3.sat:
+            if soft and sig is not None and _sig_known(sig):
+                self.soft.append((what, self.model(), self.notes.get('scenario'), sig))
+                return
             raise Violation(what, self.model(), sig)
         raise PathAbort('infeasible at fail')
 
@@ -774,6 +794,9 @@ def explore(run, stack=None, max_paths=10 ** 7, stop_on_violation=True, deadline
         except RecursionError as e:
             status = 'limit'
             res.limits.append('recursion: %s' % e)
+        for sv in c.soft:
+            if not any(x[3] == sv[3] for x in res.violations):
+                res.violations.append(sv)
         decisions = [t for t, _ in c.trace]
         if status == 'ok' and out and 'observe' in out and XVAL_STRIDE and len(res.xval) < 8:
             import zlib as _z
